@@ -120,6 +120,11 @@ def run(ctx):
     ctx.floor("PAN-3", "Result::unwrap sites inspected", nres, 1)
     # PAN-4
     pan4(ctx, lib, reach)
+    # RAW-1 (shared with C01): an unescaped class member can make the pattern syntactically invalid ([Z-\])
+    from . import classprinter
+    from .C01 import class_escape_closures
+    ctx.rule("RAW-1", "in the bracket-class printer no member is formatted as a raw char outside the class escaper (a raw backslash or bracket makes the pattern invalid)")
+    classprinter.raw1(ctx, lib, class_escape_closures(lib))
     # PAN-5 inventory
     inv = {}
     for b in lib.bodies:
